@@ -73,7 +73,7 @@ def gen(rng, tier):
             oid = rng.choice(ids)
             act = scenario.future_action(rng, oid) if oid in W.FUTS else scenario.stock_action(rng, oid)
             subs.append(dict(ev=rng.choice(['PRE_BEFORE_TRADING', 'BEFORE_TRADING', 'POST_BEFORE_TRADING', 'PRE_AFTER_TRADING', 'AFTER_TRADING', 'POST_AFTER_TRADING',
-                                            'ORDER_UNSOLICITED_UPDATE', 'ORDER_UNSOLICITED_UPDATE', 'ORDER_CREATION_PASS']), acts=[act], every=1, max=rng.choice([3, 10])))
+                                            'ORDER_UNSOLICITED_UPDATE', 'ORDER_UNSOLICITED_UPDATE', 'ORDER_CREATION_PASS', 'TRADE', 'PRE_SETTLEMENT', 'POST_SETTLEMENT']), acts=[act], every=1, max=rng.choice([3, 10])))
         scn['subs'] = subs
         rest = rng.choice(ids)
         for i in range(scn['start_i'], scn['end_i'] + 1):
@@ -218,11 +218,13 @@ def analyse(scn, out):
     # its brackets) is being published
     closed = None
     for m in trace:
-        if m['k'] == 'ev0' and m['ev'] in ('PRE_BEFORE_TRADING', 'BEFORE_TRADING', 'POST_BEFORE_TRADING', 'PRE_AFTER_TRADING', 'AFTER_TRADING', 'POST_AFTER_TRADING'):
+        if m['k'] == 'ev0' and m['ev'] in ('PRE_BEFORE_TRADING', 'BEFORE_TRADING', 'POST_BEFORE_TRADING', 'PRE_AFTER_TRADING', 'AFTER_TRADING', 'POST_AFTER_TRADING',
+                                          'PRE_SETTLEMENT', 'SETTLEMENT', 'POST_SETTLEMENT'):
             closed = m['ev']
         elif m['k'] == 'ev1' and m['ev'] == closed:
             closed = None
-        elif m['k'] == 'ev0' and closed and m['ev'] in ('ORDER_PENDING_NEW', 'TRADE'):
+        elif m['k'] == 'ev0' and closed and (m['ev'] == 'ORDER_PENDING_NEW' or (m['ev'] == 'TRADE' and ((m.get('payload') or {}).get('trade') or {}).get('order_id') is not None)):
+            # (the engine's own trades at settlement / before the open - expiry, delisting, reinvestment - carry no order)
             cx.hit('C08.order_not_refused', dict(op='handler', ph=closed), dict(event=m['ev'], during=closed, dt=m['snap']['cal'], payload=m.get('payload')))
     if scn.get('subs'):
         cx.keys.add(repr(('SUBS', tuple(sorted(set(x['ev'] for x in scn['subs']))))))
